@@ -63,8 +63,8 @@ const (
 )
 
 func (Driver) Run(c *core.Ctx) {
-	nv := int64(c.N(2500, 94000)) // x3 constraints: 40 k x 3 quick, 6 M x 3 thorough over all batches
-	nd := int64(c.N(1250, 31000)) // 20 k / 2 M documents
+	nv := int64(c.N(15000, 94000)) // x3 constraints: 40 k x 3 quick, 6 M x 3 thorough over all batches
+	nd := int64(c.N(7500, 31000)) // 20 k / 2 M documents
 	for i := int64(0); i < nv; i++ {
 		if !c.Want(i) {
 			continue
